@@ -43,8 +43,9 @@ def run_scenario(bins, sc, keep=False):
                 steps = sc.get("scripts", {}).get("%s|%s" % (c, t["path"]), [{"op": "exit", "code": 0}])
                 ext = sc.get("exts", {}).get(c, ".sh")
                 if kd != "undef":
-                    fx.add_cmd(t["path"], c, _resolve_steps(fx, sc, steps), kind=kd, ext=ext,
-                               cmd_dir=sc.get("cmd_dirs", {}).get(t["path"]))
+                    # noexec_later: executable now, made non-executable by an earlier command of the same run
+                    fx.add_cmd(t["path"], c, _resolve_steps(fx, sc, steps), kind="def" if kd == "noexec_later" else kd, ext=ext,
+                               cmd_dir=sc.get("cmd_dirs", {}).get(t["path"]), copy=(kd == "noexec_later"))
                     if kd == "def" and "%s|%s" % (c, t["path"]) in sc.get("symlinks", ()):
                         # the command file is a symbolic link to an executable kept elsewhere
                         link = fx.cmd_files[(t["path"], c)][0]
@@ -90,6 +91,8 @@ def run_scenario(bins, sc, keep=False):
         if sc.get("fou"):
             args.append("--fail-on-undefined")
         args += sc.get("extra_args", [])
+        for pc in sc.get("pre_cmds", []):
+            fx.monorail(pc)
         fx.reset_helper()
         listener = None
         if sc.get("listener"):
@@ -157,7 +160,7 @@ def run_scenario(bins, sc, keep=False):
         rec = {"ev": "run", "cfg": cfg_abs(sc["targets"]), "mode": mode,
                "named": [P(x) for x in sc.get("named", [])], "pre": {"targets": pre["targets"], "groups": pre["groups"]},
                "ncmd": len(cmds), "fou": bool(sc.get("fou")),
-               "kinds": [[cmd_index[c], P(tp), kinds.get("%s|%s" % (c, tp), "def")] for c in cmds for tp in all_paths],
+               "kinds": [[cmd_index[c], P(tp), kinds.get("%s|%s" % (c, tp), "def").replace("noexec_later", "noexec")] for c in cmds for tp in all_paths],
                "events": events, "rc": res["rc"] if res["rc"] is not None else -9,
                "doc": doc_abs(res["out"], len(cmds)), "timeout": bool(res.get("timeout")),
                "label": sc.get("label", "")}
@@ -181,6 +184,11 @@ def _resolve_steps(fx, sc, steps):
                     paths.append(fx.marker("%s-%s" % (what, fx.key_of(t, c))))
             s2 = {k: v for k, v in s.items() if k != "tasks"}
             s2["paths"] = paths
+            out.append(s2)
+        elif s.get("op") == "chmod" and "path_of" in s:
+            c, t = s["path_of"]
+            s2 = {k: v for k, v in s.items() if k != "path_of"}
+            s2["path"] = fx.cmd_files[(t, c)][0] if (t, c) in fx.cmd_files else "/nonexistent"
             out.append(s2)
         else:
             out.append(s)
@@ -213,7 +221,8 @@ def targets_from_dag(nt, dep, names=None, rng=None):
             if t == i and nested.get(t) != u:
                 if (t, nested.get(u)) in depset and (t + u) % 3 == 0:
                     continue        # the entry naming the nested target u brings its enclosing target along
-                uses.append(paths[u] if (t + u) % 2 == 0 else paths[u] + "/src.txt")
+                # the entry names the dependency's directory, a file in it, or a path in it that does not exist (yet)
+                uses.append([paths[u], paths[u] + "/src.txt", paths[u] + "/dist/out.bin"][(t + 2 * u) % 3])
         t = {"path": paths[i]}
         if uses:
             t["uses"] = uses
@@ -358,8 +367,12 @@ def random_scenario(seed, nt_range=(5, 12), fail_prob=0.35, slow_deps=True):
             sc["cmd_dirs"][t["path"]] = d
     if use_seq and ncmd >= 3:
         # two sequences, given in an order that is not the alphabetical order of their names, then --commands
-        sc["sequences_cfg"] = {"zz-first": cmds[:1], "aa-second": cmds[1:ncmd - 1], "mm-unused": ["never"]}
-        sc["cli"] = {"sequences": ["zz-first", "aa-second"], "commands": cmds[ncmd - 1:]}
+        if ncmd >= 4:
+            sc["sequences_cfg"] = {"zz-first": cmds[:1], "aa-second": cmds[1:2], "mm-third": cmds[2:ncmd - 1], "kk-unused": ["never"]}
+            sc["cli"] = {"sequences": ["zz-first", "aa-second", "mm-third"], "commands": cmds[ncmd - 1:]}
+        else:
+            sc["sequences_cfg"] = {"zz-first": cmds[:1], "aa-second": cmds[1:ncmd - 1], "mm-unused": ["never"]}
+            sc["cli"] = {"sequences": ["zz-first", "aa-second"], "commands": cmds[ncmd - 1:]}
     elif use_seq:
         sc["sequences_cfg"] = {"s1": cmds[:ncmd - 1]}
         sc["cli"] = {"sequences": ["s1"], "commands": cmds[ncmd - 1:]}
@@ -376,6 +389,14 @@ def random_scenario(seed, nt_range=(5, 12), fail_prob=0.35, slow_deps=True):
     else:
         sc["mode"] = "targets"
         sc["named"] = [paths[t] for t in rng.sample(range(1, nt + 1), rng.randint(1, min(4, nt)))]
+    r2 = random.Random(seed * 31 + 7)
+    if r2.random() < 0.35:
+        # other commands have been used in this repository before the run (whatever they leave behind must not matter)
+        pre = [["run", "-c", cmds[0], "-t", paths[r2.randint(1, nt)], "--deps"], ["target", "show", "-g"], ["analyze", "--target-groups"]]
+        r2.shuffle(pre)
+        sc["pre_cmds"] = pre[: r2.randint(1, 2)]
+    if sc["mode"] == "all" and r2.random() < 0.3:
+        sc["extra_args"] = ["--begin", "HEAD"]        # without a checkpoint an explicit interval changes nothing: every target
     return sc
 
 
@@ -452,6 +473,27 @@ def detached_output_scenario(seed=0, ms=2300):
                "test|tool": [{"op": "close_output"}, {"op": "sleep", "ms": ms // 2}, {"op": "exit", "code": 0}]}
     return {"targets": ts, "commands": ["build", "test", "lint"], "kinds": {}, "fou": False, "scripts": scripts, "mode": "all",
             "label": "detached-output-%d" % ms}
+
+
+def background_process_scenario(seed=0, hold_ms=4000):
+    """C06: a command that starts a background process (which keeps the command's output pipes open) and exits 0, next to a
+    sibling that is still running: nothing has failed - every entry is `success`, later commands run."""
+    rng = random.Random(seed)
+    ts = [{"path": "svc"}, {"path": "web"}, {"path": "top", "uses": ["svc", "web"]}]
+    rng.shuffle(ts)
+    scripts = {"start|svc": [{"op": "out", "text": "starting service\n"}, {"op": "background_hold", "ms": hold_ms}, {"op": "exit", "code": 0}],
+               "start|web": [{"op": "sleep", "ms": hold_ms - 800}, {"op": "out", "text": "web ready\n"}, {"op": "exit", "code": 0}]}
+    return {"targets": ts, "commands": ["start", "after"], "kinds": {}, "fou": False, "scripts": scripts, "mode": "all",
+            "label": "background-process-%d" % hold_ms, "timeout": 120}
+
+
+def chmod_scenario(seed=0):
+    """C06: an earlier command of the same run takes the execute permission away from a later command's file: when that
+    command is scheduled it lacks the permission - `not_executable`, failed, exit status 1, later commands skipped."""
+    ts = [{"path": "pkg"}, {"path": "other"}]
+    scripts = {"gen|pkg": [{"op": "chmod", "path_of": ["check", "pkg"], "mode": 0o644}, {"op": "exit", "code": 0}]}
+    return {"targets": ts, "commands": ["gen", "check", "publish"], "kinds": {"check|pkg": "noexec_later"}, "fou": False, "scripts": scripts,
+            "mode": "targets", "named": ["pkg"], "label": "chmod-mid-run"}
 
 
 def late_success_scenario(nsib, seed=0, fail_first=True, sig=None):
